@@ -92,6 +92,14 @@ impl SinglePosFormat2 {
             .map(ValueRecord::format)
             .unwrap_or(ValueFormat::empty())
     }
+
+    // the subtable stores one format and the reader sizes every record with it
+    fn check_format_consistency(&self, ctx: &mut ValidationCtx) {
+        let format = self.compute_value_format();
+        if self.value_records.iter().any(|rec| rec.format() != format) {
+            ctx.report("all ValueRecords must have same format")
+        }
+    }
 }
 
 impl PairPosFormat1 {
@@ -559,5 +567,26 @@ mod tests {
             crate::dump_table(&bad_table),
             Err(crate::error::Error::ValidationFailed(_))
         ));
+    }
+
+    #[test]
+    fn validate_singlepos2_record_formats() {
+        let coverage: CoverageTable = [GlyphId16::new(1), GlyphId16::new(2), GlyphId16::new(3)]
+            .into_iter()
+            .collect();
+        let uniform = SinglePosFormat2::new(
+            coverage.clone(),
+            vec![
+                ValueRecord::new().with_x_advance(1),
+                ValueRecord::new().with_x_advance(2),
+                ValueRecord::new().with_x_advance(3),
+            ],
+        );
+        assert!(uniform.validate().is_ok());
+        for odd in 0..3 {
+            let mut table = uniform.clone();
+            table.value_records[odd] = ValueRecord::new().with_x_advance(5).with_y_placement(7);
+            assert!(table.validate().is_err(), "record {odd}");
+        }
     }
 }
